@@ -32,7 +32,7 @@ def _is_float_node(graph, ref, raw_type):
 
 @st.composite
 def scale_graph(draw, raw_type, max_scales=5, types=('Linear', 'Polynomial', 'Table', 'Add', 'Subtract'), noop=False):
-    n = draw(st.integers(1, max_scales))
+    n = draw(st.integers(1, max_scales)) if max_scales <= 5 else draw(st.integers(9, max_scales))
     graph = []
     kinds = list(types) + (['AdvancedAPI'] if noop else [])
     for i in range(n):
